@@ -49,7 +49,7 @@ class Engine(ExprMixin, CallMixin, StmtMixin):
         if ty == 'str':
             return VS(fresh(name, Str))
         if ty == 'tok':
-            return VTok(fresh(name, Tok))
+            return VTok(fresh(name, Tok), fresh=fresh(name + '_isfresh', BoolSort()))
         if ty == 'freshtok':
             return VTok(fresh(name, Tok), fresh=True)
         if ty == 'E':
@@ -284,6 +284,11 @@ class Engine(ExprMixin, CallMixin, StmtMixin):
             return
         self.obls.append(Obl(name, st.hyps(), goal, kind, props, watch=self.watch_terms(), meta=meta,
                              func=self.cur.key if self.cur else None))
+        if kind == 'P':
+            # vacuity guard: on at least one path the hypotheses of this clause must be satisfiable
+            self.obls.append(Obl(name + '#nonvacuous', st.hyps(), BoolVal(False), 'V', (),
+                                 meta={'expect': 'sat', 'group': name + '#nonvacuous'},
+                                 func=self.cur.key if self.cur else None))
 
     def watch_terms(self):
         w = {}
@@ -416,7 +421,14 @@ class Engine(ExprMixin, CallMixin, StmtMixin):
             if cl.kind == 'G':
                 continue
             items = self.spec.clause(cl.text, ctx)
-            self.oblige('%s#%s' % (c.key, cl.label), st, self.goal_of(items, st), cl.kind, cl.props)
+            goal = self.goal_of(items, st)
+            if cl.carve:
+                fid, hyp = cl.carve
+                hz = self.goal_of(self.spec.clause(hyp, ctx), st)
+                self.oblige('%s#%s[outside %s]' % (c.key, cl.label, fid), st, Implies(hz, goal), cl.kind, cl.props)
+                self.oblige('%s#%s[%s]' % (c.key, cl.label, fid), st, goal, 'K', cl.props, meta={'finding': fid})
+            else:
+                self.oblige('%s#%s' % (c.key, cl.label), st, goal, cl.kind, cl.props)
         # a normal return while an exact `raises` condition holds contradicts the contract
         for exc, r in c.raises.items():
             if r.exact:
